@@ -486,4 +486,49 @@ theorem lines_written (ls : List (List Char)) (h : ∀ l ∈ ls, '\n' ∉ l) :
   unfold lines
   rw [pieces_written ls h, finishLines_written]
 
+/-! ### what the primitives remove (full characterisations, used by `C11_text_spec`) -/
+
+theorem trimEnd_suffix_ws (l : List Char) : ∃ c, l = trimEndChars l ++ c ∧ c.all isWhitespace = true := by
+  induction l with
+  | nil => exact ⟨[], rfl, rfl⟩
+  | cons x xs ih =>
+    obtain ⟨t, ht, hw⟩ := ih
+    unfold trimEndChars
+    split
+    · rename_i hcond
+      simp only [Bool.and_eq_true, List.isEmpty_iff] at hcond
+      refine ⟨x :: xs, rfl, ?_⟩
+      rw [hcond.1] at ht
+      simp only [List.nil_append] at ht
+      rw [ht]; simp only [List.all_cons, hcond.2, Bool.true_and]; exact hw
+    · exact ⟨t, by simp [← ht], hw⟩
+
+/-- `trimChars` removes white space only, and all of it at both ends -/
+theorem trimChars_spec (l : List Char) :
+    ∃ a c, l = a ++ trimChars l ++ c ∧ a.all isWhitespace = true ∧ c.all isWhitespace = true ∧
+      NoWsHead (trimChars l) ∧ NoWsLast (trimChars l) := by
+  obtain ⟨c, hc, hw⟩ := trimEnd_suffix_ws (l.dropWhile isWhitespace)
+  refine ⟨l.takeWhile isWhitespace, c, ?_, ?_, hw, trimChars_noWsHead l, trimChars_noWsLast l⟩
+  · unfold trimChars
+    rw [List.append_assoc, ← hc, List.takeWhile_append_dropWhile]
+  · generalize l = m
+    induction m with
+    | nil => rfl
+    | cons x xs ih =>
+      by_cases hx : isWhitespace x = true
+      · simp [hx, ih]
+      · simp [hx]
+
+/-- `stripCommentChars` keeps a comment-free prefix; what it drops starts with `//` -/
+theorem stripComment_spec (l : List Char) :
+    ∃ c, l = stripCommentChars l ++ c ∧ hasComment (stripCommentChars l) = false ∧
+      (c = [] ∨ ∃ r, c = '/' :: '/' :: r) := by
+  suffices h : ∃ c, l = stripCommentChars l ++ c ∧ (c = [] ∨ ∃ r, c = '/' :: '/' :: r) by
+    obtain ⟨c, h1, h2⟩ := h; exact ⟨c, h1, hasComment_strip l, h2⟩
+  fun_induction stripCommentChars l with
+  | case1 => exact ⟨[], rfl, Or.inl rfl⟩
+  | case2 c => exact ⟨[], rfl, Or.inl rfl⟩
+  | case3 c c2 cs h => exact ⟨c :: c2 :: cs, rfl, Or.inr ⟨cs, by rw [h.1, h.2]⟩⟩
+  | case4 c c2 cs h ih => obtain ⟨t, ht, hr⟩ := ih; exact ⟨t, by simp [← ht], hr⟩
+
 end Cook.Aisle
